@@ -3,6 +3,7 @@ module verifh
 go 1.26
 
 require (
+	github.com/anishathalye/porcupine v1.3.0
 	github.com/mgtv-tech/redis-GunYu v0.0.0
 	verifsim v0.0.0
 )
